@@ -93,8 +93,8 @@ Ltac eqbs :=
   end.
 Ltac stages :=
   repeat match goal with
-  | |- context [pr_stage ?rq ?o] => let P := fresh "P" in destruct (pr_stage_cases rq o) as [P|P]; rewrite P in *
-  | H : context [pr_stage ?rq ?o] |- _ => let P := fresh "P" in destruct (pr_stage_cases rq o) as [P|P]; rewrite P in *
+  | |- context [pr_stage ?rq ?o] => let P := fresh "P" in destruct (pr_stage_cases rq o) as [P|P]; rewrite P in *; clear P
+  | H : context [pr_stage ?rq ?o] |- _ => let P := fresh "P" in destruct (pr_stage_cases rq o) as [P|P]; rewrite P in *; clear P
   end.
 Ltac hold :=
   unfold HW, HB, holders in *; simp_state; rm1'; use_upd'; rw_pcs'; stages;
@@ -106,5 +106,155 @@ Proof.
   intros [I1 I2] H. destruct l; inv_body H.
   all: constructor; intros q; [intros Hq | intros rq Hrq]; specialize (I1 q); try specialize (I2 q); simp_state.
   all: norm_len.
-  all: match goal with |- ?g => idtac "G" end.
-Admitted.
+  all: try norm_tab Hrq.
+  all: hold.
+  all: try (apply I1; assumption); try (eapply I2; eassumption).
+  all: try (specialize (I2 _ Hrq); eqbs; lia).
+  all: try (specialize (I1 Hq); eqbs; lia).
+  all: try (rewrite nth_error_snoc in Hrq; eqbs; try discriminate; try lia;
+            [ specialize (I2 _ Hrq); lia | injection Hrq as <-; simpl; specialize (I1 (le_n _)); lia ]).
+  all: try (rewrite nth_error_upd in Hrq; eqbs; try lia;
+            [ match goal with E : nth_error _ ?q = Some _ |- _ => rewrite E in Hrq; injection Hrq as <-; specialize (I2 _ E); simpl in *; lia end
+            | specialize (I2 _ Hrq); lia ]).
+  - assert (Hq' : length (s_reqs s) <= q) by lia. specialize (I1 Hq'). eqbs; lia.
+  - rewrite nth_error_snoc in Hrq. destruct (Nat.ltb_spec q (length (s_reqs s))).
+    + specialize (I2 _ Hrq). eqbs; lia.
+    + destruct (Nat.eqb_spec q (length (s_reqs s))); [|discriminate]. injection Hrq as <-. subst q.
+      specialize (I1 (le_n _)). rewrite Nat.eqb_refl. simpl. lia.
+Qed.
+
+Lemma InvA_epi s s' : InvA s -> epi s = Ok s' -> InvA s'.
+Proof.
+  unfold epi. intros [I1 I2] H. break_match H; injection H as <-; constructor; unfold HW, holders in *; simp_state; assumption.
+Qed.
+
+(* ---- incomingByID only holds requests that are still held in a stage before the delete section *)
+Definition entry_ok (s : state) (i : id) (r : nat) : Prop :=
+  (exists rq, nth_error (s_reqs s) r = Some rq /\ rq_id rq = Some i) /\ 1 <= HB s r.
+Definition InvB (s : state) : Prop := forall i r, alookup (s_byID s) i = Some r -> entry_ok s i r.
+
+Lemma InvB_init p : InvB (init p).
+Proof. intros i r H; discriminate. Qed.
+
+Lemma pr_stage_cases' rq o :
+  (rq_id rq = None /\ pr_stage rq o = PDec) \/ (exists i, rq_id rq = Some i /\ pr_stage rq o = PDelete o).
+Proof. unfold pr_stage; destruct (rq_id rq); eauto. Qed.
+Ltac stages' :=
+  repeat match goal with
+  | |- context [pr_stage ?rq ?o] =>
+      let P := fresh "P" in let Q := fresh "Q" in let i := fresh "i" in
+      destruct (pr_stage_cases' rq o) as [[Q P]|(i & Q & P)]; rewrite P in *; clear P
+  | H : context [pr_stage ?rq ?o] |- _ =>
+      let P := fresh "P" in let Q := fresh "Q" in let i := fresh "i" in
+      destruct (pr_stage_cases' rq o) as [[Q P]|(i & Q & P)]; rewrite P in *; clear P
+  end.
+Ltac hold' :=
+  unfold HW, HB, holders in *; simp_state; rm1'; use_upd'; rw_pcs'; stages';
+  cbn [cnt_r cnt_h cnt_p b2n pre_write pre_del] in *; rewrite ?occ_app, ?occ_cons in *;
+  cbn [occ count_occ] in *.
+
+(* the reader's own holding of r in the accept stage excludes every other holder *)
+Lemma HB_le_HW s r : HB s r <= HW s r.
+Proof.
+  unfold HB, HW, holders.
+  assert (cnt_r false pre_del (s_reader s) r <= cnt_r true pre_write (s_reader s) r).
+  { unfold cnt_r. destruct (s_reader s); try lia. destruct (Nat.eqb r0 r); [|lia]. destruct sub; simpl; try lia. destruct p; simpl; lia. }
+  assert (cnt_h pre_del (s_handler s) r <= cnt_h pre_write (s_handler s) r).
+  { unfold cnt_h. destruct (s_handler s); try lia. destruct (Nat.eqb r0 r); [|lia]. destruct sub; simpl; try lia. destruct p; simpl; lia. }
+  assert (sum (map (fun pp => cnt_p pre_del pp r) (s_resps s)) <= sum (map (fun pp => cnt_p pre_write pp r) (s_resps s))).
+  { induction (s_resps s) as [|a l IH]; simpl; [lia|]. assert (cnt_p pre_del a r <= cnt_p pre_write a r); [|lia].
+    unfold cnt_p. destruct a; try lia. destruct (Nat.eqb r0 r); [|lia]. destruct p; simpl; lia. }
+  lia.
+Qed.
+
+Lemma cancel_req_fwd q l r rq : nth_error l r = Some rq ->
+  exists rq', nth_error (cancel_req q l) r = Some rq' /\ rq_id rq' = rq_id rq.
+Proof. intros H. rewrite cancel_req_nth, H. eexists; split; [reflexivity|]. destruct (Nat.eqb q r); reflexivity. Qed.
+Lemma cancel_all_fwd kv : forall l r rq, nth_error l r = Some rq ->
+  exists rq', nth_error (cancel_all kv l) r = Some rq' /\ rq_id rq' = rq_id rq.
+Proof.
+  unfold cancel_all. induction kv as [|a kv IH]; intros l r rq H; simpl; [eauto|].
+  destruct (cancel_req_fwd (snd a) _ _ _ H) as (rq1 & H1 & S1). destruct (IH _ _ _ H1) as (rq2 & H2 & S2).
+  exists rq2; split; [assumption | congruence].
+Qed.
+Lemma upd_fwd n x l q rq old : nth_error l q = Some rq -> nth_error l n = Some old -> rq_id x = rq_id old ->
+  exists rq', nth_error (upd n x l) q = Some rq' /\ rq_id rq' = rq_id rq.
+Proof.
+  intros H1 H2 E. rewrite nth_error_upd. destruct (Nat.eqb_spec n q).
+  - subst. rewrite H1. exists x; split; [reflexivity | congruence].
+  - eauto.
+Qed.
+Ltac table_fwd Hrq Hid :=
+  first
+  [ eexists; split; [exact Hrq | exact Hid]
+  | let rq' := fresh "rq" in let H1 := fresh in let S1 := fresh in
+    match goal with |- context [cancel_req ?c _] =>
+      destruct (cancel_req_fwd c _ _ _ Hrq) as (rq' & H1 & S1); exists rq'; split; [exact H1 | congruence] end
+  | let rq' := fresh "rq" in let H1 := fresh in let S1 := fresh in
+    match goal with |- context [cancel_all ?kv _] =>
+      destruct (cancel_all_fwd kv _ _ _ Hrq) as (rq' & H1 & S1); exists rq'; split; [exact H1 | congruence] end
+  | let rq' := fresh "rq" in let H1 := fresh in let S1 := fresh in
+    match goal with E : nth_error _ ?n = Some ?old |- context [upd ?n ?x _] =>
+      destruct (upd_fwd n x _ _ _ old Hrq E eq_refl) as (rq' & H1 & S1); exists rq'; split; [exact H1 | congruence] end
+  | eexists; split; [rewrite nth_error_app1; [exact Hrq | eapply nth_error_lt; exact Hrq] | exact Hid] ].
+
+Lemma HB_accept s r : s_reader s = RBusy r RAccept -> HB s r + 1 <= HW s r.
+Proof.
+  intros E. unfold HB, HW, holders. rewrite E. simpl. rewrite Nat.eqb_refl. simpl.
+  assert (cnt_h pre_del (s_handler s) r <= cnt_h pre_write (s_handler s) r).
+  { unfold cnt_h. destruct (s_handler s); try lia. destruct (Nat.eqb r0 r); [|lia]. destruct sub; simpl; try lia. destruct p; simpl; lia. }
+  assert (sum (map (fun pp => cnt_p pre_del pp r) (s_resps s)) <= sum (map (fun pp => cnt_p pre_write pp r) (s_resps s))).
+  { induction (s_resps s) as [|a l IH]; simpl; [lia|]. assert (cnt_p pre_del a r <= cnt_p pre_write a r); [|lia].
+    unfold cnt_p. destruct a; try lia. destruct (Nat.eqb r0 r); [|lia]. destruct p; simpl; lia. }
+  lia.
+Qed.
+
+Lemma InvB_body s l s1 : InvN s -> InvA s -> InvB s -> body_step s l = Ok s1 -> InvB s1.
+Proof.
+  intros IN IA I H. destruct l; inv_body H.
+  all: intros i' q Hq; unfold InvB, entry_ok in *; simp_state.
+  all: try (rewrite alookup_adelete in Hq; destruct (id_eqb i' _) eqn:Ei; [discriminate|]; apply id_eqb_neq in Ei).
+  all: try (specialize (I _ _ Hq); destruct I as [(rq & Hrq & Hid) I]; split;
+            [ try (table_fwd Hrq Hid; fail) | try (hold'; eqbs; first [lia | exfalso; congruence]) ]).
+  - (* LStart: the reader did not exist *)
+    unfold HB, holders in *; simp_state. rewrite (in_main _ IN E) in I. simpl in *. lia.
+  - (* duplicate ID: the request being accepted is not in the map *)
+    assert (q <> r).
+    { intros ->. pose proof (HB_accept _ _ E). pose proof (ia_once _ IA _ _ E0). lia. }
+    exists rq. rewrite nth_error_upd_other by congruence. auto.
+  - simpl in Hq. destruct (id_eqb i' i) eqn:Ei.
+    + injection Hq as <-. apply id_eqb_eq in Ei; subst i'. split; [eauto|]. hold'. rewrite Nat.eqb_refl. lia.
+    + destruct (I _ _ Hq) as [X Y]. split; [assumption|]. hold'. eqbs; lia.
+  - simpl in Hq. destruct (id_eqb i' i) eqn:Ei.
+    + injection Hq as <-. apply id_eqb_eq in Ei; subst i'. split; [eauto|]. hold'. rewrite Nat.eqb_refl. lia.
+    + destruct (I _ _ Hq) as [X Y]. split; [assumption|]. hold'. eqbs; lia.
+  - simpl in Hq. destruct (id_eqb i' i) eqn:Ei.
+    + injection Hq as <-. apply id_eqb_eq in Ei; subst i'. split; [eauto|]. hold'. rewrite Nat.eqb_refl. lia.
+    + destruct (I _ _ Hq) as [X Y]. split; [assumption|]. hold'. eqbs; lia.
+  - pose proof (in_running _ IN) as R. rewrite E2 in R. destruct (s_handler s) eqn:EH; try discriminate.
+    hold'. eqbs; lia.
+Qed.
+
+Lemma InvB_epi s s' : InvB s -> epi s = Ok s' -> InvB s'.
+Proof.
+  unfold epi. intros I H. break_match H; injection H as <-; intros i r Hq; unfold InvB, entry_ok, HB, holders in *; simp_state; auto.
+Qed.
+
+(* a request in incomingByID is counted by s.incoming *)
+Lemma HB_le_in_flight s r : HB s r <= in_flight s.
+Proof.
+  unfold HB, holders, in_flight.
+  assert (cnt_r false pre_del (s_reader s) r <= r_counted (s_reader s)).
+  { unfold cnt_r, r_counted. destruct (s_reader s); try lia. destruct (Nat.eqb r0 r); destruct sub; simpl; try lia. destruct (pre_del p); simpl; lia. }
+  assert (cnt_h pre_del (s_handler s) r <= h_counted (s_handler s)).
+  { unfold cnt_h, h_counted. destruct (s_handler s); try lia. destruct (Nat.eqb r0 r); destruct sub; simpl; try lia. destruct (pre_del p); simpl; lia. }
+  assert (sum (map (fun pp => cnt_p pre_del pp r) (s_resps s)) <= sum (map p_counted (s_resps s))).
+  { induction (s_resps s) as [|a l IH]; simpl; [lia|]. assert (cnt_p pre_del a r <= p_counted a); [|lia].
+    unfold cnt_p, p_counted. destruct a; try lia. destruct (Nat.eqb r0 r); [|lia]. destruct (pre_del p); simpl; lia. }
+  pose proof (occ_le_length (s_queue s) r). pose proof (occ_le_length (s_asyncs s) r). lia.
+Qed.
+Lemma byID_nil_of_idle s : InvN s -> InvB s -> s_incoming s = 0 -> s_byID s = [].
+Proof.
+  intros IN IB Z. apply alookup_none_nil. intros i. destruct (alookup (s_byID s) i) as [r|] eqn:E; [|reflexivity].
+  destruct (IB _ _ E) as [_ H]. pose proof (HB_le_in_flight s r). rewrite (in_incoming _ IN) in Z. lia.
+Qed.
